@@ -7,7 +7,7 @@ C19 — histories of calls on reused buffer objects.  The functions of `encoding
 argument has *at that step*.  Buffers are `bytes` (rebinding only), `bytearray` and `memoryview`
 (overwritten in place); the kind matters only where the code's `data[k:] + pad` refuses a `memoryview`.
 -/
-namespace Pycoin.History
+namespace Pycoin.HashHistory
 
 inductive Kind | bytes | bytearray | memoryview
   deriving DecidableEq, Repr
@@ -100,4 +100,4 @@ def exec (F : Fns) : State → List Step → List Ans
 
 def empty : State := ⟨[], none⟩
 
-end Pycoin.History
+end Pycoin.HashHistory
